@@ -147,7 +147,7 @@ Section StepAdv.
           rewrite Hc in Hc'. inversion Hc'; subst d'.
           destruct Hok0 as [Hval [Hvd [Hrate _]]].
           unfold var_ok, trig_var. cbn [set_last set_dfr v_val v_last v_dfr p_triggered p_val p_trig p_dirty].
-          rewrite Hev. fold t. repeat split; auto. lia.
+          rewrite Hev. fold t. repeat split; auto; try lia; try (intros; discriminate).
         + unfold fired_vars in Hvr. rewrite upd_all_out in Hvr by auto. rewrite upd_all_out in Hp by auto.
           rewrite Hvr0 in Hvr. rewrite Hp0 in Hp. inversion Hvr; inversion Hp; subst. exact Hok0.
       - split; [apply NoDup_map_filter; auto|]. split.
@@ -204,7 +204,7 @@ Section StepAdv.
   Lemma var_ok_mono d vr pv t t' : t <= t' -> var_ok d vr pv t -> var_ok d vr pv t'.
   Proof.
     intros Hle [H1 [H2 [H3 H4]]]. split; auto. split; auto. split; auto.
-    destruct (d_ev d); auto. destruct H4 as [Ha [Hb Hc]]. repeat split; auto. lia.
+    destruct (d_ev d); auto. destruct H4 as [Ha [Hb [Hc Hd]]]. repeat split; auto. lia.
   Qed.
 
   Lemma vrel_mono vs pvs t t' : t <= t' -> vrel c vs pvs t -> vrel c vs pvs t'.
